@@ -1058,6 +1058,9 @@ public:
                newps->set_size(ps->size());
             }
          }
+         // size() counts the nonzeros: a set of empty vectors has none, but it has vectors
+         else if(rhs.num() > 0)
+            this->add(rhs);
       }
 
       assert(isConsistent());
@@ -1073,7 +1076,8 @@ public:
       {
          clear(rhs.size());
 
-         if(rhs.size() > 0)
+         // size() counts the nonzeros: a set of empty vectors has none, but it has vectors
+         if(rhs.num() > 0)
             this->add(rhs);
       }
 
